@@ -17,6 +17,7 @@ class GuardDomain:
         self.prog, self.f = prog, f
         self.ce = ConstEval(prog)
         self.calls = []         # (call node, frozenset of facts)
+        self.stores = []        # (assignment node, frozenset of facts)
         self.alias = {}         # local name -> initialiser text (single-assignment locals)
         assigned = {}
         for m in walk(prog.body(f)):
@@ -71,6 +72,7 @@ class GuardDomain:
         if k in ("BinaryOperator", "CompoundAssignOperator") and e0.get("opcode", "").endswith("=") and \
                 e0.get("opcode") not in ("==", "!=", "<=", ">="):
             s = self.eval(ks[1], s)
+            self.stores.append((e0, s))
             l = strip(ks[0], casts=True)
             s = frozenset(f for f in s if f[0] != expr_str(l))
             nm = ref_name(l) if l.get("kind") == "DeclRefExpr" else None
@@ -154,3 +156,18 @@ def holds(facts, subject_pred, const, equal):
         if c == const and eq == equal and subject_pred(t):
             return True
     return False
+
+
+def facts_at_stores(prog, fname):
+    """[(assignment node, facts that hold on every path reaching it)]"""
+    f = prog.fn(fname)
+    dom = GuardDomain(prog, f)
+    Flow(dom).function(prog, f, frozenset())
+    merged, order = {}, []
+    for c, s in dom.stores:
+        if id(c) in merged:
+            merged[id(c)] = (c, merged[id(c)][1] & s)
+        else:
+            merged[id(c)] = (c, s)
+            order.append(id(c))
+    return [merged[i] for i in order]
